@@ -31,6 +31,7 @@ RULE = (
 RULE += (' ' + 'Also generated: tags on value-less positional-only parameters of a callable without **kwargs (also at the root), set nodes and plain attribute-holder objects as mutable leaves (deep copies must not share them; they are mutated on the copy).')
 RULE += (' ' + 'Round 7: nodes over a callable with Annotated parameters (also as root) whose annotation tags were cleared before the copy.')
 RULE += (' ' + 'Rounds 3-5: experimental DictConfig / NamespaceConfig nodes (keys also set by attribute, one named kwargs).')
+RULE += (' ' + 'Round 8: a node re-pointed with update_callable at a callable whose unset parameter has a default compared by identity, then copied: the copy equals the original, reports the same default object and builds the same.')
 ASSUMPTIONS = [
     'in-place mutation of argument values is only applied to deep copies (shallow copies share values by design)',
     'built graphs compared by canonical form with behavioural probing of partials',
@@ -45,6 +46,12 @@ _TAGS = ['TagA', 'TagB', 'TagC', 'TagX']
 
 @st.composite
 def strategy_(draw, tier):
+  if draw(st.sampled_from(range(8))) == 0:
+    # round 8: a node re-pointed with update_callable at a callable whose unset parameter has a
+    # default compared by identity, then copied
+    return {'retarget_sentinel': True, 'op': draw(st.sampled_from(DEEP + SHALLOW)),
+            'bt': draw(st.sampled_from(['Config', 'Partial'])), 'x': draw(leaves.leaf('plain')),
+            'wrap': draw(st.sampled_from(['none', 'list', 'child']))}
   recipe = draw(dags.dag(
       max_nodes=10, min_nodes=3, bts=('Config', 'Config', 'Partial'), tags=True,
       kinds=['B', 'B', 'list', 'list', 'tuple', 'dict', 'dict', 'nt', 'Bpos', 'Bmut', 'Bpo', 'set', 'holder', 'Bdictcfg',
@@ -191,7 +198,44 @@ def check(case):
     things._MUTABLE_DEFAULT[:] = default_snapshot  # pylint: disable=protected-access
 
 
+def _check_retarget_sentinel(case, out):
+  out.cls('retarget_sentinel')
+  out.nontrivial = True
+  op = case['op']
+  out.cls('op_' + op)
+  feat = 'retarget-sentinel:' + op
+  inner = getattr(fdl, case['bt'])(things.f2, x=leaves.dec(case['x']))
+  fdl.update_callable(inner, things.pooled)
+  root = {'none': lambda: inner, 'list': lambda: fdl.Config(things.h1, a=[inner, 1]),
+          'child': lambda: fdl.Config(things.f2, x='outer', child=inner)}[case['wrap']]()
+  build_before = _canon_build(root)
+  try:
+    cp = do_copy(op, root)
+  except Exception as e:  # pylint: disable=broad-except
+    out.add('copy-raises', exc_kind(e), fiddle_frame(e), feat, repr(e))
+    return out
+  cp_inner = {'none': lambda: cp, 'list': lambda: cp.a[0], 'child': lambda: cp.child}[case['wrap']]()
+  if not op.startswith('cast_'):  # a cast changes the root's Buildable type
+    try:
+      eq = (cp == root) and (root == cp)
+    except Exception as e:  # pylint: disable=broad-except
+      out.add('eq-of-copy-raises', exc_kind(e), fiddle_frame(e), feat, repr(e))
+      return out
+    if not eq:
+      out.add('copy-not-equal-to-original', 'mismatch', '', feat, f'orig={root!r}\ncopy={cp!r}')
+      return out
+  if cp_inner.pool is not things.DEFAULT_POOL or inner.pool is not things.DEFAULT_POOL:
+    out.add('copy-reports-different-default', 'mismatch', '', feat,
+            f'copy.pool={cp_inner.pool!r} original.pool={inner.pool!r}')
+    return out
+  if not op.startswith('cast_') and _canon_build(cp) != build_before:
+    out.add('copy-builds-differently', 'mismatch', '', feat, f'orig={root!r}\ncopy={cp!r}')
+  return out
+
+
 def _check(case, out):
+  if case.get('retarget_sentinel'):
+    return _check_retarget_sentinel(case, out)
   root, objs = dags.build(case['recipe'])
   op = case['op']
   deep = op in DEEP
